@@ -24,6 +24,7 @@ type Env struct {
 	cur        *HeapView
 	pkg        string
 	visited    *MapIterV
+	entry      *HeapView       // heap at the entry of the loop whose invariant is being read (entry(...))
 	qn         *int
 	assume     bool            // the expression is being assumed (callee contract), not proved
 	fnKey      string          // function whose locals are in scope (loop invariants)
@@ -257,6 +258,17 @@ func (st *State) elab(env *Env, e *Expr) (SVal, types.Type) {
 		}
 		n.inOld = true
 		n.cur = env.old
+		return st.elab(&n, e.Args[0])
+	case "entry":
+		if env.entry == nil {
+			st.unsupported("entry(...) outside a loop invariant")
+		}
+		n := *env
+		if !env.inOld {
+			n.outer = env.cur
+		}
+		n.inOld = true
+		n.cur = env.entry
 		return st.elab(&n, e.Args[0])
 	case "unary":
 		v, t := st.elab(env, e.Args[0])
